@@ -112,6 +112,50 @@ for _lab in (False, True):
                    % (FMT[_f0].name, "free-text label str len<=2 + a fixed vlan_range list" if _lab else "core unbounded int > 0, ram unbounded int >= 0"))
 
 
+@harness("duplicate_ids_in_one_call", timeout=300, encodes=ENC,
+         bounds="2..3 delegations handed to ONE add_delegations call onto a container that may already hold one; ids by symbolic index "
+                "(every aliasing pattern); capacity details unbounded ints > 0")
+def h_multi(n: int, pre_existing: bool, i0: int, i1: int, i2: int, c: List[int]) -> bool:
+    """
+    pre: 2 <= n <= 3 and len(c) == 4 and all(x > 0 for x in c)
+    pre: 0 <= i0 < 3 and 0 <= i1 < 3 and 0 <= i2 < 3
+    post: R(_)
+    """
+    begin()
+    ids = [IDS[i0], IDS[i1], IDS[i2]][:n]
+    ds = Delegations(atype=DelegationType.CAPACITY)
+    have = []
+    if pre_existing:
+        d0 = Delegation(atype=DelegationType.CAPACITY, delegation_id=IDS[0])
+        d0.set_details(Capacities(core=c[3]))
+        ds.add_delegations(d0)
+        have = [IDS[0]]
+    new = []
+    for j, did in enumerate(ids):
+        d = Delegation(atype=DelegationType.CAPACITY, delegation_id=did)
+        d.set_details(Capacities(core=c[j]))
+        new.append(d)
+    dup = len(set(ids)) != len(ids) or any(x in have for x in ids)
+    try:
+        ds.add_delegations(*new)
+        raised = False
+    except DelegationException:
+        raised = True
+    if raised != dup:
+        return False
+    if not raised:
+        if sorted(ds.get_delegation_ids()) != sorted(have + ids):
+            return False
+        for j, did in enumerate(ids):
+            if ds.get_by_delegation_id(did) is not new[j]:
+                return False
+    else:
+        # nothing already present was replaced
+        if pre_existing and ds.get_by_delegation_id(IDS[0]).get_details().core != c[3]:
+            return False
+    return True
+
+
 @harness("ill_typed_rejected", timeout=200, encodes=ENC,
          bounds="delegation type x details type x format x container type (all combinations by symbolic index), details unbounded int / str len<=2")
 def h_reject(dt: int, det: int, fmt: int, ct: int, c: int, s: str) -> bool:
